@@ -49,6 +49,13 @@ def r1_who_keeps_stopped_pending(ctx):
         for c in si.calls_to(r"Option::<.*>::is_some$"):
             for sb, arms, other in flow.switch_on(si, c.dest["l"]):
                 exit_t = arms.get("0")
+        if exit_t is None:
+            # `loop { match rx.recv().await { Some(_) => .., None => break } }` spelling
+            vl, _rdy = awaited_value_local(si, rc)
+            if vl is not None:
+                for sb, arms, other in flow.switch_on(si, vl):
+                    if arms.get("0") is not None:
+                        exit_t = arms["0"]
         R.check(exit_t is not None, "C10.R1", "start_inner:loop-until-none", "the wait loop runs until the channel is closed", "the wait for connection tasks is not a loop until None", where(rc))
         for bb, kind, loc in _orig_drop_sites(si, "jsonrpsee_server::future::StopHandle"):
             R.check(exit_t is not None and si.dominates(exit_t, bb), "C10.R1", "start_inner:stop-handle-held:%s" % kind, "start_inner's StopHandle outlives the wait for all connection tasks", "start_inner releases its StopHandle (%s) before all connection tasks finished: stopped() can resolve while connections are still served" % kind, loc)
@@ -62,7 +69,10 @@ def r1_who_keeps_stopped_pending(ctx):
         dd = [c for c in si.calls_to(r"^std::mem::drop$") if "mpsc::Sender<()>" in si.locals[op_place(c.args[0])["l"]]["ty"]]
         R.check(len(dd) == 1 and si.dominates(dd[0].bb, rc.bb), "C10.R1", "start_inner:last-sender-dropped-before-wait", "the accept loop's own completion sender is dropped before waiting (else the wait never ends)", "the completion sender is not dropped before the wait loop", where(rc))
     # (b) process_connection task
-    pc = F.one(r"^jsonrpsee_server::server::process_connection::\{closure#0\}$")
+    pcs = [x for x in F.nested(F.one(r"^jsonrpsee_server::server::process_connection$")) if x.calls_to(r"serve_connection_with_upgrades$")]
+    if len(pcs) != 1:
+        raise AnchorLost("the connection task of process_connection (the future that calls serve_connection_with_upgrades; found %d)" % len(pcs))
+    pc = pcs[0]
     R.fn(pc)
     sel = pc.calls_to(r"^futures_util::future::select$")
     R.check(len(sel) == 1, "C10.R1", "process_connection:select", "the connection is raced against the stop signal", "%d select sites in the connection task" % len(sel), "%s:%d" % (pc.file, pc.lo))
